@@ -11,7 +11,8 @@ HARNESS = [os.path.join(vlib.HARNESS, "root", "common_test.go"), os.path.join(vl
 
 
 def enumerate_lancero(quick, rng):
-    devsets = [[0], [1], [0, 1], [0, 3], [1, 3], [0, 1, 3]]
+    # the order is the client's ActiveCards order, which need not be ascending
+    devsets = [[0], [1], [0, 1], [1, 0], [0, 3], [3, 0], [1, 3], [0, 1, 3], [3, 0, 1], [1, 3, 0]]
     geoms = [(1, 1), (2, 3), (3, 2)] if quick else [(1, 1), (1, 3), (2, 2), (2, 3), (3, 2), (3, 3)]
     firsts = [-1, 0, 1, 5]
     sepcards = [-1, 0, 1, 4, 6, 9, 10] + ([] if quick else [8, 12, 18, 27])
@@ -26,7 +27,7 @@ def enumerate_lancero(quick, rng):
                                     "devs": [{"devnum": d, "ncols": g[0], "nrows": g[1]} for d, g in zip(ds, gs)]})
     if quick:
         rng.shuffle(out)
-        out = out[:2500]
+        out = out[:4000]
     return out
 
 
@@ -46,6 +47,8 @@ def run(ctx):
         ctx.notes["model_counterexample"] = {"invariant": r.violated, "cfg": [st.get("cfg") for st in r.error_trace][-1:]}
     rk = vlib.run_tlc(ctx, "ChannelId", "ChannelIdKeepGroups.cfg", workers=4, timeout=600)
     ctx.notes["model_design_variant_keep_groups"] = {"violated": rk.violated, "meaning": "without the reset of the group list at the top of PrepareChannels a second call on the same object (Start retried after a failure behind PrepareChannels) reports every group twice"}
+    rl = vlib.run_tlc(ctx, "ChannelId", "ChannelIdSkipLast.cfg", workers=8, timeout=900)
+    ctx.notes["model_design_variant_skip_last_card"] = {"violated": rl.violated, "meaning": "exempting the last listed card from the card-separation check collides as soon as the cards are not listed in ascending order"}
     rng = random.Random(ctx.seed + 19)
     scens = enumerate_lancero(q, rng) + enumerate_abaco()
     scens += [{"kind": k, "origin": "enumerated", "nchan": n} for k in ("roach", "simple") for n in (1, 2, 7, 64)]
